@@ -46,6 +46,15 @@ type ThreadChooser interface {
 	ChooseThread(cands []Cand) int
 }
 
+// StateChooser is implemented by choosers that want, at every scheduling point, a key of the global state reached
+// (visited-state pruning).  The key is a hash of the Mazurkiewicz trace executed so far: per thread, the sequence of
+// its operations with the identity and version of every modelled object each one touched, and every explicit choice
+// it took.  Two executions with the same key have executed the same partial order of operations and are in the same
+// state (same assumption as for sleep sets: operations on different objects commute).  Returning -1 prunes.
+type StateChooser interface {
+	ChooseThreadState(cands []Cand, key [2]uint64) int
+}
+
 // StatusPruned marks an execution cut off by the sleep-set reduction (it is a prefix of an
 // equivalent execution explored elsewhere).
 const StatusPruned = "pruned"
@@ -241,7 +250,73 @@ type thread struct {
 	vc      VC
 	obs     []obsRec
 	mutated bool
-	force   bool // spurious wake-up granted
+	force   bool      // spurious wake-up granted
+	hist    [2]uint64 // rolling hash of the operations executed so far (state keys)
+	// iterHist is hist as it was when the current polling iteration began (last return from Sleep).  An iteration
+	// that only looked and found nothing leaves the thread's local state as it was (the assumption the parking rule
+	// already rests on), so it is dropped from the history when the thread goes back to sleep.
+	iterHist  [2]uint64
+	sawClosed bool // the iteration saw a closed channel (a finding that may change local state): keep it
+}
+
+const (
+	hashSeedA = 0x9E3779B97F4A7C15
+	hashSeedB = 0xC2B2AE3D27D4EB4F
+)
+
+func mix64(h, v uint64) uint64 {
+	h ^= v + 0x9E3779B97F4A7C15 + (h << 6) + (h >> 2)
+	h *= 0xff51afd7ed558ccd
+	h ^= h >> 33
+	return h
+}
+
+func (t *thread) mixv(v uint64) {
+	t.hist[0] = mix64(t.hist[0], v)
+	t.hist[1] = mix64(t.hist[1]^hashSeedB, v*hashSeedA+1)
+}
+
+func (t *thread) mixs(str string) {
+	h := uint64(14695981039346656037)
+	for i := 0; i < len(str); i++ {
+		h ^= uint64(str[i])
+		h *= 1099511628211
+	}
+	t.mixv(h)
+}
+
+// mixOp folds an operation that is about to execute into the thread's history.
+func (t *thread) mixOp(o *op) {
+	if o.sleeper || o.desc == "sleep(yield)" {
+		return // where a thread sleeps is implied by what it did before; how often it slept for nothing is not state
+	}
+	t.mixs(o.desc)
+	for _, ob := range o.touch {
+		t.mixv(uint64(ob.id)<<32 | 0x1)
+		if ob.external {
+			if ob.extReady() {
+				t.mixv(3)
+			} else {
+				t.mixv(2)
+			}
+			continue
+		}
+		t.mixv(ob.ver)
+	}
+}
+
+// stateKey combines the histories of all threads.
+func (s *Sched) stateKey() [2]uint64 {
+	k := [2]uint64{hashSeedA, hashSeedB}
+	for _, t := range s.threads {
+		d := uint64(0)
+		if t.done {
+			d = 1
+		}
+		k[0] = mix64(mix64(mix64(k[0], uint64(t.id)), t.hist[0]), d)
+		k[1] = mix64(mix64(mix64(k[1], uint64(t.id)+7), t.hist[1]), d)
+	}
+	return k
 }
 
 type obsRec struct {
@@ -321,6 +396,7 @@ type Sched struct {
 	spurious   int          // consecutive spurious wake-ups without progress
 	spuriousAt uint64       // value of changes when the current run of spurious wake-ups started
 	changes    uint64       // counts state changes of modelled objects, thread starts/ends and events
+	hashing    bool         // the chooser wants state keys: operations and choices are folded into per-thread histories
 	Trace      func(string) // optional step tracer
 }
 
@@ -347,6 +423,8 @@ func Run(cfg Config, body func()) *Result {
 		s.maxSteps = 100000
 	}
 	SetTickBudget(cfg.TickBudget)
+	_, s.hashing = cfg.Chooser.(StateChooser)
+	harnessObj.ver = 0
 	active = s
 	t0 := s.newThread("main", 0)
 	s.cur = t0
@@ -506,7 +584,21 @@ func (s *Sched) dispatch(self *thread) {
 			s.maxEn = len(en)
 		}
 		idx := 0
-		if tc, ok := s.chooser.(ThreadChooser); ok {
+		if sc, ok := s.chooser.(StateChooser); ok {
+			cands := make([]Cand, len(en))
+			for i, t := range en {
+				cands[i] = Cand{Thread: t.id}
+			}
+			idx = sc.ChooseThreadState(cands, s.stateKey())
+			if idx < 0 {
+				s.abortFrom(self, StatusPruned, "state already visited")
+				return
+			}
+			if idx >= len(en) {
+				s.abortFrom(self, StatusDiverged, fmt.Sprintf("thread choice %d out of range %d", idx, len(en)))
+				return
+			}
+		} else if tc, ok := s.chooser.(ThreadChooser); ok {
 			cands := make([]Cand, len(en))
 			for i, t := range en {
 				c := Cand{Thread: t.id, Reads: t.pending.reads}
@@ -548,6 +640,14 @@ func (s *Sched) dispatch(self *thread) {
 		chosen.tick()
 		if s.Trace != nil {
 			s.Trace(fmt.Sprintf("%4d t%d(%s) %s", s.steps, chosen.id, chosen.name, o.desc))
+		}
+		if s.hashing {
+			chosen.mixOp(o)
+			for _, ob := range o.touch {
+				if ob == harnessObj {
+					harnessObj.ver++ // harness operations are totally ordered in the key
+				}
+			}
 		}
 		if o.exec != nil {
 			o.exec()
@@ -623,6 +723,11 @@ func (s *Sched) spawn(name string, rank int, f func()) {
 	parent := s.cur
 	t := s.newThread(name, rank)
 	t.vc = parent.vc.clone()
+	if s.hashing {
+		parent.mixv(uint64(t.id)<<8 | 0x5)
+		t.hist = parent.hist
+		t.mixv(0x77)
+	}
 	parent.mutated = true
 	t.pending = &op{desc: "start"}
 	s.changes++
@@ -671,7 +776,11 @@ func Choose(n int, what string) int {
 	if s == nil || n <= 1 {
 		return 0
 	}
-	return s.chooser.Choose(ClassFree, n, what)
+	k := s.chooser.Choose(ClassFree, n, what)
+	if s.hashing {
+		s.cur.mixv(uint64(k)<<8 | 0x9)
+	}
+	return k
 }
 
 // Emit records a harness event with the current thread's vector clock.
@@ -764,6 +873,7 @@ func (s *Sched) doRecv(t *thread, o *object) (v any, ok bool) {
 	if o.external {
 		// closed external channel
 		t.observe(o)
+		t.sawClosed = true
 		return nil, false
 	}
 	switch {
@@ -795,6 +905,7 @@ func (s *Sched) doRecv(t *thread, o *object) (v any, ok bool) {
 	default: // closed
 		t.vc.join(o.closeVC)
 		t.observe(o)
+		t.sawClosed = true
 		s.events = append(s.events, Event{Step: s.steps, Thread: t.id, Name: "closed-seen", N: o.id, VC: t.vc.clone()})
 		return nil, false
 	}
@@ -1041,6 +1152,9 @@ func Select(hasDefault bool, cases ...Case) *Sel {
 			pick := 0
 			if len(ready) > 1 {
 				pick = s.chooser.Choose(ClassSched, len(ready), "select")
+				if s.hashing {
+					t.mixv(uint64(pick)<<8 | 0xb)
+				}
 			}
 			res.I = ready[pick]
 			o := objs[res.I]
@@ -1127,11 +1241,17 @@ func Sleep(d time.Duration) {
 	}()
 	if t.mutated || len(t.obs) == 0 {
 		t.mutated = false
+		t.sawClosed = false
 		t.obs = t.obs[:0]
 		s.point(&op{desc: "sleep(yield)"})
 		t.mutated = false
+		t.iterHist = t.hist
 		return
 	}
+	if s.hashing && !t.sawClosed {
+		t.hist = t.iterHist // the iteration looked and found nothing: it is not part of the state
+	}
+	t.sawClosed = false
 	watch := append([]obsRec(nil), t.obs...)
 	t.obs = t.obs[:0]
 	var wobjs []*object
@@ -1166,6 +1286,7 @@ func Sleep(d time.Duration) {
 		},
 	})
 	t.mutated = false
+	t.iterHist = t.hist
 }
 
 // ---------------------------------------------------------------------------
